@@ -85,7 +85,7 @@ def same(a, b, err_class_matters=False):
 
 
 def load_corpus(pid):
-    d = os.path.join(os.path.dirname(os.path.dirname(os.path.abspath(__file__))), "corpus", pid)
+    d = os.path.join(os.path.dirname(os.path.dirname(os.path.dirname(os.path.abspath(__file__)))), "corpus", pid)
     out = []
     if os.path.isdir(d):
         for f in sorted(os.listdir(d)):
